@@ -437,6 +437,8 @@ def rule_render(ctx):
     ctx.exhaustive_domains.append("576 printf formats (flags x width x precision x conversion) and 7 sexagesimal formats")
 
 
+EXPLANATION = EXPLANATION + " C10.MIXED: the 27 sign x separator combinations of a three-field sexagesimal text (each separator independently ':', ';' or blank) are accepted unchanged by the part validator and parsed by str_to_num to the value they denote, under a sexagesimal and a printf format (constant evaluation; patterns outside the regular fragment, e.g. back-references, are decided here)."
+
 RULES = [
     ("C10.ACCEPT", rule_accept, "L(INDI number grammar) within L(message validator)"),
     ("C10.PARSE", rule_parse, "per format class: L(grammar) within the language str_to_num accepts; capture groups safe for int()/float()"),
